@@ -24,7 +24,7 @@ from .c12 import flat_vector
 
 PROP = 'C15'
 RULES = {'Z1': 'builders do not write their inputs', 'Z2': 'solvePDE writes only its solution variable', 'Z3': 'solveMatrixPDE / solveExplicitPDE write nothing given',
-         'Z4': 'results do not alias input storage', 'Z5': 'no hidden state, randomness or clock in builder modules'}
+         'Z4': 'results do not alias input storage', 'Z5': 'no hidden state, randomness or clock in builder modules', 'Z6': 'a repeated call with the same arguments returns the same values'}
 ASSUMPTIONS = ['numpy view rules of the interpreter: slicing/attribute access alias, arithmetic / np.copy / hstack / tile / csr_array are fresh',
                'bit-identical repetition follows from Z1, Z4, Z5 (pure functions of their inputs)']
 BUILDER_MODULES = ['diffusion', 'advection', 'calculus', 'averaging', 'source', 'boundary', 'pdesolver', 'cell', 'face', 'mesh', 'utilities']
@@ -98,6 +98,18 @@ def job(args):
         ob('Z1', construct, not muts, f"stores into input storage: {muts[:3]}" if muts else "no store into any input array", fi.loc())
         al = frozen_in(res)
         ob('Z4', construct, not al, f"the returned object holds input storage {al[:3]}" if al else "result holds no input storage", fi.loc())
+        # Z6: a second call with the very same (unchanged) arguments returns the same values - state kept between calls
+        # (a cache on the mesh written in place, a memo keyed by identity, a counter) shows as a difference
+        if not muts:
+            try:
+                res2 = w.call(module, fn, *a)
+                diff = _first_difference(w, res, res2)
+                ob('Z6', construct, diff is None, f"a repeated call with the same arguments differs: {diff}" if diff else "a repeated call returns the same values", fi.loc())
+            except AbstractRaise as e:
+                ob('Z6', construct, False, f"the repeated call raises {e.exc}: {e.msg}", fi.loc())
+            except AnalysisError as e:
+                if 'read by position' not in str(e):
+                    raise
     units.update(w.interp.funcs_seen)
     # Z1d: the same for a variable whose change-tracking flags are raised (value edited in place / boundary condition edited,
     # no solve yet): a builder is a function of the values it is given - it neither rebinds attributes of its argument nor
@@ -169,6 +181,78 @@ def job(args):
     except AbstractRaise as e:
         ob('Z2', 'pdesolver.solvePDE', False, f"raises {e.exc}", fs.loc())
     return dict(obs=obs, units=sorted(x for x in units if isinstance(x, str)), samples=samples)
+
+
+def _first_difference(w, r1, r2):
+    """compare two builder results at generic and first / last positions; returns a description of the first difference or None"""
+    from ..alg import fmt_rat
+
+    def cells():
+        if w.symbolic:
+            d = w.dim
+            out = [tuple(w.t)]
+            for a_ in range(d):
+                out.append(tuple(ONE if k == a_ else w.t[k] for k in range(d)))
+                out.append(tuple(w.N[a_] if k == a_ else w.t[k] for k in range(d)))
+            return out
+        return F.cell_classes(w, 'quick')
+    if isinstance(r1, tuple) and isinstance(r2, tuple) and len(r1) == len(r2):
+        for x, y in zip(r1, r2):
+            d_ = _first_difference(w, x, y)
+            if d_:
+                return d_
+        return None
+    if isinstance(r1, ASparse) and isinstance(r2, ASparse):
+        for P in cells():
+            a1, a2 = F.row_by_col(w, w.matrix_row(r1, P)), F.row_by_col(w, w.matrix_row(r2, P))
+            if set(a1) != set(a2):
+                return f"matrix row {F.cstr(P)} has different columns"
+            for k in a1:
+                if not is_zero(a1[k][1] - a2[k][1]):
+                    return f"matrix entry ({F.cstr(P)}, {k}): {fmt_rat(a1[k][1], 5)} vs {fmt_rat(a2[k][1], 5)}"
+        return None
+    if isinstance(r1, AObj) and isinstance(r2, AObj) and r1.cls == r2.cls:
+        for k in sorted(r1.attrs):
+            if k in ('domain', 'BCs'):
+                continue
+            v1, v2 = r1.attrs.get(k), r2.attrs.get(k)
+            if isinstance(v1, (Box, View, Arr)) and isinstance(v2, (Box, View, Arr)):
+                a1, a2 = snap(v1), snap(v2)
+                if a1.ndim != a2.ndim:
+                    return f"attribute {k}: rank {a1.ndim} vs {a2.ndim}"
+                if a1.ndim == 0 or a1.size().is_zero():
+                    continue
+                idxs = []
+                if w.symbolic and a1.ndim == w.dim:
+                    idxs = [tuple(w.t[j] for j in range(a1.ndim)), tuple(ZERO for _ in range(a1.ndim))]
+                elif a1.concrete_shape() is not None:
+                    import itertools
+                    idxs = [tuple(Rat.const(i) for i in ix) for ix in itertools.product(*[range(n) for n in a1.concrete_shape()])][:40]
+                for ix in idxs:
+                    try:
+                        if not is_zero(a1.at(ix) - a2.at(ix)):
+                            return f"{r1.cls}.{k}{[str(i) for i in ix]}: {fmt_rat(a1.at(ix), 5)} vs {fmt_rat(a2.at(ix), 5)}"
+                    except (AnalysisError, AbstractRaise):
+                        break
+        return None
+    if isinstance(r1, (Box, View, Arr)) and isinstance(r2, (Box, View, Arr)):
+        a1, a2 = snap(r1), snap(r2)
+        if a1.ndim == 1 and (a1.segs is not None or (a1.label and a1.label[0] == 'flatvec')):
+            for P in cells():
+                try:
+                    if not is_zero(w.vector_at(r1, P) - w.vector_at(r2, P)):
+                        return f"vector entry {F.cstr(P)}: {fmt_rat(w.vector_at(r1, P), 5)} vs {fmt_rat(w.vector_at(r2, P), 5)}"
+                except (AnalysisError, AbstractRaise):
+                    return None
+            return None
+        if a1.ndim == w.dim:
+            for P in cells():
+                try:
+                    if not is_zero(a1.at(P) - a2.at(P)):
+                        return f"entry {F.cstr(P)}: {fmt_rat(a1.at(P), 5)} vs {fmt_rat(a2.at(P), 5)}"
+                except (AnalysisError, AbstractRaise):
+                    return None
+    return None
 
 
 def global_rules(sm, rep, tier):
